@@ -145,3 +145,51 @@ def is_zero_expr(e: Optional[ast.AST]) -> bool:
         if leaf in ("full", "full_like") and len(e.args) >= 2 and is_zero_expr(e.args[1]):
             return True
     return False
+
+
+def type_narrowed_dead_params(run, rule: str, functions) -> int:
+    """A parameter that the function inspects with isinstance(p, T) must still be *used* when it is of none of the tested types (and is
+    not None): otherwise a legal argument of another type (an ndarray where a Tensor is also accepted, a list where a tuple is tested, ...)
+    is silently ignored.  Decided on the CFG specialised with every isinstance(p, .) false and `p is None` false: every path from the entry
+    to a normal exit must pass a statement that reads p (outside the tests themselves) -- raising is fine."""
+    import networkx as nx
+    n = 0
+    for fi in functions:
+        fn = fi.node
+        params = [a.arg for a in fn.args.posonlyargs + fn.args.args + fn.args.kwonlyargs if a.arg not in ("self", "cls")]
+        tests: Dict[str, List[ast.Call]] = {}
+        for c in own_nodes(fn):
+            if isinstance(c, ast.Call) and isinstance(c.func, ast.Name) and c.func.id == "isinstance" and len(c.args) == 2 \
+                    and isinstance(c.args[0], ast.Name) and c.args[0].id in params:
+                tests.setdefault(c.args[0].id, []).append(c)
+        for p, ts in sorted(tests.items()):
+            if any(isinstance(x, ast.Name) and x.id == p and isinstance(x.ctx, ast.Store) for x in own_nodes(fn)):
+                # the parameter is rebound somewhere: uses after the rebinding are uses of the new value; still fine for this rule
+                pass
+            assume = {norm(t): False for t in ts}
+            assume[f"{p} is None"] = False
+            assume[f"{p} is not None"] = True
+            cfg = CFG(fn, assume=assume)
+            in_tests = set()
+            for t in ts:
+                in_tests |= {id(x) for x in ast.walk(t)}
+            uses = set()
+            for nid, st in cfg.stmt.items():
+                if st is None or isinstance(st, (ast.FunctionDef, ast.AsyncFunctionDef, ast.ClassDef)):
+                    continue
+                for x in ast.walk(st):
+                    if isinstance(x, ast.Name) and x.id == p and isinstance(x.ctx, ast.Load) and id(x) not in in_tests:
+                        uses.add(nid)
+                        break
+            g = cfg.g.copy()
+            g.remove_nodes_from(uses)
+            dead = ENTRY in g and EXIT in g and nx.has_path(g, ENTRY, EXIT)
+            n += 1
+            path = None
+            if dead:
+                path = cfg.path_text(nx.shortest_path(g, ENTRY, EXIT))
+            run.ob(rule, loc(fi, ts[0]), fi.short, f"parameter `{p}` is used whatever its type ({', '.join(sorted({norm(t.args[1])[:30] for t in ts}))} tested)", not dead,
+                   f"with every isinstance({p}, .) false and {p} not None, each path to a normal exit reads {p}" if not dead else
+                   f"`{p}` is read only when it is an instance of the tested type(s): an argument of any other accepted type (e.g. an ndarray where a "
+                   f"Tensor is tested) is silently ignored", path=path)
+    return n
